@@ -247,6 +247,40 @@ func scopes() map[string]*PropScope {
 			return &FnConfig{Classes: classSet([]string{"typestate", "post", "frame", "inv-entry", "inv-pres"}), PB: true}
 		},
 	})
+	add(&PropScope{ID: "C05", Closure: false, NoReplay: true, Technique: "contract-based deductive verification: reset obligations (every receiver field assigned on each successful DecodeFromBytes return) via ghost write flags, container and parser contracts, z3/cvc5",
+		Roots: func(e *Engine) []*ssa.Function {
+			return e.selectFns(func(f *ssa.Function) bool {
+				pk := e.pkgName(f)
+				return (pk == "layers" || pk == "gopacket") && isDecodeFromBytes(f)
+			})
+		},
+		Cfg: func(e *Engine, f *ssa.Function, root bool) *FnConfig {
+			if isDecodeFromBytes(f) {
+				return &FnConfig{Classes: classSet([]string{"reset"}), Reset: true}
+			}
+			return &FnConfig{}
+		},
+		NotCovered: []string{"the reset obligation checks that each field is assigned on every successful return, not that the assigned value is independent of the previous contents (x = x[:0] re-use is accepted)", "fixed-size array fields are not tracked", "equality of field values between parser and NewPacket follows from both running the same DecodeFromBytes (canonical wrapper typestate: C03)"},
+	})
+	add(&PropScope{ID: "C01", Closure: true, NoReplay: true, Technique: "contract-based deductive verification: recover-dominance and error-layer contracts in packet.go, decoder typestate / progress / termination obligations, no-panic VCs of accessor and renderer methods, z3/cvc5",
+		Roots: func(e *Engine) []*ssa.Function {
+			r := e.selectFns(func(f *ssa.Function) bool {
+				pk := e.pkgName(f)
+				return (pk == "layers" || pk == "gopacket") && isDecodeFuncSig(f)
+			})
+			return append(r, accessorRoots(e)...)
+		},
+		Cfg: func(e *Engine, f *ssa.Function, root bool) *FnConfig {
+			if f.Signature.Recv() != nil && accessorNames[f.Name()] {
+				return &FnConfig{Classes: classSet(safetyClasses)}
+			}
+			if isDecodeFuncSig(f) {
+				return &FnConfig{Classes: classSet([]string{"typestate-err", "progress", "dec", "post", "assert", "frame", "inv-entry", "inv-pres"}), PB: true}
+			}
+			return &FnConfig{Classes: classSet(safetyClasses, []string{"dec", "post", "assert", "frame", "inv-entry", "inv-pres"})}
+		},
+		NotCovered: []string{"reflection-based renderers (LayerString/LayerDump/LayerGoString) are outside the subset: assumed not to panic on values whose Stringers do not panic", "accessors are verified for arbitrary receiver state (stronger than 'a packet that decoding produced'); obligations that need decode-established invariants are listed as not claimed"},
+	})
 	tagged := func(id, technique string, notCovered ...string) {
 		add(&PropScope{ID: id, Closure: false, Technique: technique, NotCovered: notCovered,
 			Roots: func(e *Engine) []*ssa.Function {
@@ -265,6 +299,8 @@ func scopes() map[string]*PropScope {
 			Cfg: func(e *Engine, f *ssa.Function, root bool) *FnConfig { return &FnConfig{} },
 		})
 	}
+	tagged("C16", "contract-based deductive verification: sequential clauses of the packet source (zero-copy guard, pull interface) with an interface contract for options checked on every implementer, z3/cvc5",
+		"everything about the channel goroutine: exactly-once through the channel, retry timing, close on EOF, cancellation latency (schedules)")
 	tagged("C08", "contract-based deductive verification: functional contracts against RFC 1071 spec functions (sum16/oc16), loop invariants, z3/cvc5")
 	tagged("C17", "contract-based deductive verification: value invariants wfE/wfF, functional contracts, lemmas over contracts as ghost code, z3/cvc5")
 	tagged("C18", "contract-based deductive verification: representation invariant + abstract view contracts with frames on every buffer method, z3/cvc5")
